@@ -515,10 +515,10 @@ inline void faultInputs(Ctx& C, bool thorough) {
   MValue big = MValue::f64(1e100);
   big.s = "1e100";
   MValue neg = MValue::integer(-70000000000LL);
-  G.leavesTop = {MValue::null(), MValue::boolean(true), MValue::integer(42), neg, big, MValue::str(""), MValue::str("a"),
+  G.leavesTop = {MValue::null(), MValue::boolean(true), MValue::integer(42), neg, big, MValue::integer((i128(1) << 64) - 1), MValue::str(""), MValue::str("a"),
                  MValue::str(std::string(40, 'x'))};
   G.keys = {"a", "b", std::string(33, 'k')};
-  G.dupKeys = false;
+  G.dupKeys = true;  // a repeated key is how a deserializer overwrites a slot that is not the tail of its list
   const size_t maxLen = detail::StringNode::maxLength;
   if (maxLen <= 255) {
     // 1-byte string lengths: strings at and just above the maximum are cheap to enumerate.  The over-long one must be
@@ -585,11 +585,34 @@ inline void faultInputs(Ctx& C, bool thorough) {
             }
             std::string lerr = A.takeErrors();
             if (!lerr.empty()) problems += "ledger\t" + lerr + "\n";
-            doc.clear();
-            if (!A.live.empty()) problems += "clear\tblocks still live after clear(): " + A.liveSignature() + "\n";
-            if (doc.overflowed()) problems += "clear\toverflowed() still set after clear()\n";
-            if (deserializeJson(doc, "{\"x\":[null,\"works\"]}") != DeserializationError::Ok || doc["x"][1] != "works")
-              problems += "reuse\tthe document does not work after clear()\n";
+            // the document is used again WITHOUT clear(), the allocator working: insertions, shrinkToFit, more insertions
+            for (int round = 0; round < 2; round++) {
+              for (int i = 0; i < 3; i++) {
+                if (doc.is<JsonObject>()) doc[std::string("zz") + char('0' + i + 3 * round)] = 18446744073709551615ULL;
+                else if (doc.is<JsonArray>() || doc.isNull()) doc.add(1e100);
+              }
+              if (round == 0) doc.shrinkToFit();
+            }
+            {
+              std::string obs2 = obsReal(doc.as<JsonVariantConst>());
+              size_t bang2 = obs2.find('!');
+              if (bang2 != std::string::npos) problems += "malformed\tafter insertions that follow the failure: " + obs2.substr(bang2, 40) + "\n";
+#ifndef VERIF_NO_INSPECTOR
+              Inspector::Report rep2 = Inspector::inspect(doc);
+              if (!rep2.errors.empty()) problems += "inspector\tafter insertions that follow the failure: " + rep2.errors + "\n";
+#endif
+              std::string lerr2 = A.takeErrors();
+              if (!lerr2.empty()) problems += "ledger\tafter insertions that follow the failure: " + lerr2 + "\n";
+            }
+            // every other plan destroys the document without clear()
+            uint64_t sel = from ? from : at.empty() ? 1 : at[0];
+            if (sel % 2) {
+              doc.clear();
+              if (!A.live.empty()) problems += "clear\tblocks still live after clear(): " + A.liveSignature() + "\n";
+              if (doc.overflowed()) problems += "clear\toverflowed() still set after clear()\n";
+              if (deserializeJson(doc, "{\"x\":[null,\"works\"]}") != DeserializationError::Ok || doc["x"][1] != "works")
+                problems += "reuse\tthe document does not work after clear()\n";
+            }
           }
           if (!A.live.empty()) problems += "destruction\tblocks live after destruction\n";
           return problems;
@@ -628,8 +651,8 @@ inline void faultInputs(Ctx& C, bool thorough) {
     C.end();
   });
   C.metrics["input_fault_plans_executed"] += double(plans);
-  C.bound("deserialization inputs: all trees <= " + std::to_string(N) + " nodes over 8 leaves and 3 keys, JSON and MessagePack, with and without a filter, under every single "
-          "failure, every fail-from-k and every pair (N <= 12)");
+  C.bound("deserialization inputs: all trees <= " + std::to_string(N) + " nodes over 9 leaves and 3 keys with repetition, JSON and MessagePack, with and without a filter, under every single "
+          "failure, every fail-from-k and every pair (N <= 12); after each: insertions, shrinkToFit and more insertions without clear(), then clear() or plain destruction");
 }
 
 }  // namespace hx
